@@ -6,9 +6,9 @@
 
    * soketto 0.8 `Receiver::receive` (connection.rs:240-250): the accumulated payload length of a message is compared
      with `length > self.max_message_size`; on excess the payload is discarded from the socket and
-     `Err(MessageTooLarge)` is returned, the receiver stays usable.  Only single-frame messages are modelled
-     (fragmented messages: soketto discards the ACCUMULATED length although only the last frame is unread, which
-     desynchronises the stream -- outside the property's quantifier and outside jsonrpsee, noted in the report);
+     `Err(MessageTooLarge)` is returned, the receiver stays usable.  `ws_loop` below is about single-frame
+     messages; fragmented messages (soketto discards the ACCUMULATED length although only the last frame is unread)
+     are the subject of the frame-level reader `ws_step` / `ws_read` at the end of this file;
    * server/src/transport/ws.rs `background_task` loop: on `MessageTooLarge` it sends the -32007 error with id null
      through the connection sink and `continue`s (breaks only when the sink is closed); any other message is
      handed to `handle_rpc_call` (= parsed and dispatched: that part is C01's model, here it is the event
@@ -256,3 +256,165 @@ Definition ws_pipeline_session (e : ep) (c : cfg) (cap : N) (msgs : list pmsg) :
     Some (k_wire k, conn_idle k, conn_run_parked l (ws_reported_limit c) cap fuel (conn_init msgs))
   | None => None
   end.
+
+(* ---------- fragmented messages (RFC 6455 5.4): the frame-level reader ----------
+
+   What the server does with a stream of client FRAMES, transcribed from
+     * soketto 0.8.1 `Receiver::receive(&mut self, message: &mut Vec<u8>)` (connection.rs:212-331): per call the locals
+       `first_fragment_opcode = None`, `length = 0`; loop { header; control frame: Ping is answered with a Pong and the loop
+       goes on, a Pong makes the call RETURN `Incoming::Pong` (the locals are lost -- also between two fragments);
+       data frame: `length += payload_len`; `if length > max_message_size { discard_bytes(length, reader); return
+       Err(MessageTooLarge) }` -- `length` is the ACCUMULATED length while only this frame's payload is unread, so the
+       payload AND `length - payload_len` further bytes of whatever follows on the socket are discarded (the call
+       blocks until they have arrived); otherwise the payload is APPENDED to `message` and then the opcode / FIN bits are
+       judged: continuation without a started message or a new Text frame inside one -> `Err(UnexpectedOpCode)`,
+       FIN -> `Ok(Data)`, else next frame }.  Headers are read with exact sizes: nothing beyond a frame is buffered.
+     * server/src/transport/ws.rs `background_task`: the `stream::unfold` closure calls `receive(&mut data)`; whether
+       `data` is a Vec allocated inside the closure (per call) is read from the source: `ws_recv_buffer_fresh`
+       (Gen/LimitsWiringGen.v).  `Ok(Data)` hands the WHOLE buffer to handle_rpc_call (event FDispatched);
+       `Err(MessageTooLarge)` -> -32007 and `continue`; any other error -> `break Err(err)`: the connection is closed
+       (FProtoErr); `Incoming::Pong` -> next call.
+   `fresh = false` is the other policy: one buffer carried across the calls, emptied only when a message is handed out.
+   A frame = what the client wrote: masked, minimal length encoding (header 6 / 8 / 14 bytes); `WRaw n` = n bytes that
+   are not a frame (they only make sense while soketto is discarding).
+   Left out: Close frames, binary vs text, reserved bits / oversized control frames (codec errors), extensions, what the
+   bytes after a desynchronisation are parsed as (FDesync is final).
+
+   Observed on the unchanged tree (replayed by the engine's naive scripts, which are diffed against this model), outside the
+   property's single-frame quantifier -- upstream soketto 0.8.1 behaviour, nothing above the limit is dispatched in any of them:
+     (1) limit crossed by fragment j > 1: `discard_bytes(length)` discards the ACCUMULATED length, i.e. acc = |f_1|+..+|f_(j-1)|
+         bytes more than the unread payload of frame j: the -32007 is withheld until acc further bytes have arrived, those
+         bytes (the rest of the message, the client's next messages) are swallowed, and unless exactly acc bytes lie before
+         the next frame header the stream is left inside a frame (FDesync; on the code: garbage header, Close 1000, EOF);
+     (2) limit crossed by a non-final fragment (also an oversized first fragment): after the -32007 the next continuation
+         frame of the same message is `UnexpectedOpCode(Continue)` -> `break Err(err)`: connection closed -- unless that
+         fragment is itself above the limit, then it is answered with another -32007 (one per such fragment);
+     (3) an unsolicited Pong between two fragments (RFC 6455 5.4 allows it): soketto returns `Incoming::Pong` from inside
+         the fragment loop, `first_fragment_opcode` / `length` are lost and -- fresh Vec per receive() call -- so are the
+         fragments read so far; the next continuation frame is `UnexpectedOpCode(Continue)`: connection closed, the
+         in-limit message is never processed.  (A Ping between fragments is answered inside the loop: harmless.) *)
+
+Inductive wframe :=
+| WData (start fin : bool) (payload : bytes)   (* start: opcode Text (or Binary); otherwise Continuation *)
+| WPing (payload : bytes)
+| WPong (payload : bytes)
+| WRaw (n : N).
+
+Definition client_header_len (n : N) : N := if n <? 126 then 6 else if n <=? 65535 then 8 else 14.
+
+Definition wire_len (f : wframe) : N :=
+  match f with
+  | WData _ _ p | WPing p | WPong p => client_header_len (blen p) + blen p
+  | WRaw n => n
+  end.
+
+Definition wire_total (fs : list wframe) : N := fold_right (fun f a => wire_len f + a) 0 fs.
+
+Inductive fev :=
+| FDispatched (text : bytes)    (* handed to handle_rpc_call: parsed and dispatched *)
+| FTooBig (reported : N)        (* the reject_too_big_request(reported) frame, id null *)
+| FPong (payload : bytes)       (* soketto's answer to a Ping *)
+| FProtoErr                     (* UnexpectedOpCode: `break Err(err)`, the connection is closed *)
+| FDesync                       (* the discard ended inside a frame / unframed bytes where a header is expected *)
+| FStalled.                     (* the input ended while soketto still waits for bytes to discard: no rejection yet *)
+
+Inductive rstate :=
+| RHeader (infrag : bool) (len : N) (msg : bytes)   (* inside receive(), before a frame header: first_fragment_opcode.is_some(), length, message *)
+| RDiscard (n : N) (msg : bytes).                   (* inside discard_bytes: n > 0 bytes still to be swallowed, then Err(MessageTooLarge) *)
+
+Definition ws_init : rstate := RHeader false 0 [].
+
+(* what the next receive() call finds in its buffer after a call that did not hand out a message *)
+Definition kept (fresh : bool) (msg : bytes) : bytes := if fresh then [] else msg.
+
+Definition ws_step (limit reported : N) (fresh : bool) (st : rstate) (f : wframe) : list fev * option rstate :=
+  match st with
+  | RDiscard n msg =>
+    let w := wire_len f in
+    if w <? n then ([], Some (RDiscard (n - w) msg))
+    else if w =? n then ([FTooBig reported], Some (RHeader false 0 (kept fresh msg)))
+    else ([FTooBig reported; FDesync], None)
+  | RHeader infrag len msg =>
+    match f with
+    | WRaw n => if n =? 0 then ([], Some st) else ([FDesync], None)
+    | WPing p => ([FPong p], Some st)
+    | WPong _ => ([], Some (RHeader false 0 (kept fresh msg)))
+    | WData start fin p =>
+      let len' := len + blen p in
+      if limit <? len' then
+        if len =? 0 then ([FTooBig reported], Some (RHeader false 0 (kept fresh msg)))
+        else ([], Some (RDiscard len msg))
+      else if Bool.eqb start infrag then ([FProtoErr], None)
+      else if fin then ([FDispatched (msg ++ p)], Some (RHeader false 0 []))
+      else ([], Some (RHeader true len' (msg ++ p)))
+    end
+  end.
+
+Fixpoint ws_run (limit reported : N) (fresh : bool) (st : rstate) (fs : list wframe) : list fev * option rstate :=
+  match fs with
+  | [] => ([], Some st)
+  | f :: rest =>
+    match ws_step limit reported fresh st f with
+    | (evs, Some st') => let (evs', o) := ws_run limit reported fresh st' rest in (evs ++ evs', o)
+    | (evs, None) => (evs, None)
+    end
+  end.
+
+Definition ws_pending (o : option rstate) : list fev :=
+  match o with Some (RDiscard _ _) => [FStalled] | _ => [] end.
+
+Definition ws_read (limit reported : N) (fresh : bool) (fs : list wframe) : list fev :=
+  let (evs, o) := ws_run limit reported fresh ws_init fs in evs ++ ws_pending o.
+
+Definition ws_frag_session (e : ep) (c : cfg) (fs : list wframe) : option (list fev) :=
+  match ws_limit_of e c with
+  | Some l => Some (ws_read l (ws_reported_limit c) ws_recv_buffer_fresh fs)
+  | None => None
+  end.
+
+(* the frames of one message cut into the fragments fr: Text first, Continuation afterwards, FIN on the last *)
+Fixpoint cont_frames (ps : list bytes) : list wframe :=
+  match ps with
+  | [] => []
+  | p :: ps' => WData false (match ps' with [] => true | _ => false end) p :: cont_frames ps'
+  end.
+
+Definition msg_frames (fr : list bytes) : list wframe :=
+  match fr with
+  | [] => []
+  | p :: ps => WData true (match ps with [] => true | _ => false end) p :: cont_frames ps
+  end.
+
+(* the fragment that takes the accumulated length above the limit: (bytes accumulated before it, fragments after it) *)
+Fixpoint split_cross (limit acc : N) (fr : list bytes) : option (N * list bytes) :=
+  match fr with
+  | [] => None
+  | f :: rest => if limit <? acc + blen f then Some (acc, rest) else split_cross limit (acc + blen f) rest
+  end.
+
+(* the client stays in step with soketto's discard: after the message cut into fr it writes `filler` unframed bytes such
+   that exactly the bytes soketto discards in excess of the offending frame (the accumulated length `acc` before it) lie
+   between that frame and the next frame header -- the remaining fragments of the message count towards them *)
+Definition in_step (limit : N) (fr : list bytes) (filler : N) : bool :=
+  match split_cross limit 0 fr with
+  | None => filler =? 0
+  | Some (acc, post) => wire_total (cont_frames post) + filler =? acc
+  end.
+
+(* a run of frames that is one message: Text first, Continuations afterwards, Pings (and empty unframed writes) between
+   the fragments allowed; its text and whether the FIN fragment is there *)
+Fixpoint block_scan (infrag : bool) (fs : list wframe) : option (bytes * bool) :=
+  match fs with
+  | [] => if infrag then Some ([], false) else None
+  | WData start fin p :: rest =>
+    if Bool.eqb start infrag then None
+    else if fin then match rest with [] => Some (p, true) | _ => None end
+    else match block_scan true rest with Some (t, b) => Some (p ++ t, b) | None => None end
+  | WPing _ :: rest => if infrag then block_scan true rest else None
+  | WRaw n :: rest => if infrag && (n =? 0) then block_scan true rest else None
+  | WPong _ :: _ => None
+  end.
+
+(* the text of a complete message *)
+Definition block_text (fs : list wframe) : option bytes :=
+  match block_scan false fs with Some (t, true) => Some t | _ => None end.
